@@ -3,7 +3,9 @@
 //! thread start, before every acquisition of the instrumented mutex (hook in
 //! `http_serve::verif_hooks`), `wake()` on a harness waker (before its effect), the consumer's
 //! park, the producer's wait-until-delivered, and explicit environment choices (waker identity).
-//! Unlock is bookkeeping only (see DESIGN.md 2.4).
+//! Unlock is bookkeeping only (see DESIGN.md 2.4). `try_lock` (not used by the crate today) is a
+//! decision point that never blocks; executions created with `cs_preempt` also let the explorer
+//! deschedule a thread right after it acquired the mutex, which only `try_lock` can observe.
 
 use std::sync::{Arc, Condvar, Mutex};
 use std::task::{Wake, Waker};
@@ -12,6 +14,11 @@ use std::task::{Wake, Waker};
 pub enum Point {
     Start,
     BeforeLock(usize),
+    /// `try_lock`: never waits; fails if the mutex is held
+    BeforeTryLock(usize),
+    /// just acquired the mutex (a decision point only in executions that preempt inside
+    /// critical sections, see `Sched::new`)
+    Locked(usize),
     /// wake() of the waker with this generation
     Wake(u64),
     /// consumer got Pending and goes to sleep until woken (generation it registered)
@@ -63,6 +70,8 @@ impl Point {
         match self {
             Point::Start => "start",
             Point::BeforeLock(_) => "lock",
+            Point::BeforeTryLock(_) => "try-lock",
+            Point::Locked(_) => "locked",
             Point::Wake(_) => "wake",
             Point::Park(_) => "park",
             Point::WaitDelivered(_) => "wait",
@@ -94,6 +103,10 @@ struct SS {
     steps: Vec<Step>,
     /// hook events seen from a thread that already holds the lock etc. (diagnostics)
     notes: Vec<String>,
+    /// the holder of the mutex can be descheduled right after acquiring it (only matters to
+    /// code that uses try_lock, which observes "held")
+    cs_preempt: bool,
+    try_lock_seen: bool,
 }
 
 pub struct Sched {
@@ -114,6 +127,10 @@ pub fn set_current(id: Option<usize>) {
 
 impl Sched {
     pub fn new(nthreads: usize, spurious: u32, env: u32, prefix: &[usize], horizon: usize) -> Arc<Sched> {
+        Sched::new_cs(nthreads, spurious, env, prefix, horizon, false)
+    }
+
+    pub fn new_cs(nthreads: usize, spurious: u32, env: u32, prefix: &[usize], horizon: usize, cs_preempt: bool) -> Arc<Sched> {
         Arc::new(Sched {
             m: Mutex::new(SS {
                 at: vec![None; nthreads],
@@ -134,6 +151,8 @@ impl Sched {
                 end: None,
                 steps: Vec::new(),
                 notes: Vec::new(),
+                cs_preempt,
+                try_lock_seen: false,
             }),
             cv: Condvar::new(),
             cvt: (0..nthreads).map(|_| Condvar::new()).collect(),
@@ -230,6 +249,7 @@ impl Sched {
                         None
                     }
                 }
+                Point::BeforeTryLock(_) | Point::Locked(_) => Some((1, false)),
                 Point::Wake(_) => Some((1, false)),
                 Point::Park(g) => {
                     if s.woken[g as usize % 64] {
@@ -309,6 +329,13 @@ impl Sched {
         // effects of proceeding past the point
         match p {
             Point::BeforeLock(_) => s.lock_holder = Some(o.thread),
+            Point::BeforeTryLock(_) => {
+                // mirrors what the real try_lock is about to find
+                s.try_lock_seen = true;
+                if s.lock_holder.is_none() {
+                    s.lock_holder = Some(o.thread);
+                }
+            }
             Point::Wake(g) => s.woken[g as usize % 64] = true,
             Point::Park(g) => {
                 if s.woken[g as usize % 64] {
@@ -371,6 +398,15 @@ impl Sched {
     pub fn holder(&self) -> Option<usize> {
         self.m.lock().unwrap().lock_holder
     }
+
+    pub fn cs_preempt(&self) -> bool {
+        self.m.lock().unwrap().cs_preempt
+    }
+
+    /// Did the subject call try_lock during this execution?
+    pub fn try_lock_seen(&self) -> bool {
+        self.m.lock().unwrap().try_lock_seen
+    }
 }
 
 /// Installs the mutex hook of the calling OS thread for logical thread `me`.
@@ -383,6 +419,14 @@ pub fn install_hook(sched: &Arc<Sched>, me: usize) {
             let _ = s.point(me, Point::BeforeLock(a));
         }
         Event::AfterUnlock(a) => s.unlocked(me, a),
+        Event::BeforeTryLock(a) => {
+            let _ = s.point(me, Point::BeforeTryLock(a));
+        }
+        Event::Locked(a) => {
+            if s.cs_preempt() {
+                let _ = s.point(me, Point::Locked(a));
+            }
+        }
     })));
 }
 
